@@ -672,8 +672,27 @@ def gamma_contract(res, items, n):
             bad.append({'item': it, 'ratios scaled/unscaled': rs[:4]})
         elif not close(a['Lmax'][0], max(abs(v) for v in a['scaled'][0]), 1e-15):
             bad.append({'item': it, 'table maximum': a['Lmax'][0]})
+    # the factor tie alone for every failure probability of the table (specs of the P_A chains; no assessment call needed)
+    cs = {}
+    for it in items:
+        if it.get('chain'):
+            for sp in it['specs']:
+                cs.setdefault(key(sp), sp)
+    cs = list(cs.values())[:7 * n]
+    outs = fkmnl.run_jobs([('prep', sp) for sp in cs], procs=1) if cs else []
+    n_tab = 0
+    for sp, a in zip(cs, outs):
+        if 'error' in a:
+            continue
+        n_tab += 1
+        M = max(abs(v) for v in sp['seq'])
+        cfac = dict(fkmnl.BASE_PARAMS, **{k: v for k, v in sp['params'].items() if v is not None})['c']
+        want = gamma_model(sp['params'], M) * cfac
+        fa = [y / x for x, y in zip(sp['seq'], a['scaled'][0]) if x != 0]
+        if not fa or not all(close(f, want, 1e-12) for f in fa) or want <= 0:
+            bad.append({'spec': sp, 'factor implementation': fa[:3], 'factor model': want})
     res.oblige('contract gamma_ok / tie gamma_normal, gamma_const: load entering HCM = gamma_L(L_max) * c * load with the model factor; scaled sequence a common multiple >= 1; '
-               'table maximum = maximum absolute load [%d instances]' % len(sc), not bad, json.dumps(bad[:2], default=str)[:3000])
+               'table maximum = maximum absolute load [%d instances + %d table probabilities]' % (len(sc), n_tab), not bad, json.dumps(bad[:2], default=str)[:3000])
     return bad
 
 
